@@ -139,6 +139,69 @@ func init() {
 	})
 
 	register(&Rule{
+		Name:  "OPT-canonref",
+		Doc:   "profile.ParseRef parses the reference on its own - without the base - only where the base string is known to be empty: every call (helpers included) that hands the reference parameter to a Parse is dominated by rawUrl == \"\"; otherwise the profile would not resolve like the parser it wraps",
+		Props: []string{"C16"},
+		Floor: 1,
+		Run: func(c *Ctx, s *core.Sink) {
+			f := c.P.Func("canonicalizer", "profile", "ParseRef")
+			if f == nil || len(f.Params) < 3 {
+				s.Unknown("canonref/(*profile).ParseRef", "-", "not found")
+				return
+			}
+			base, ref := ssa.Value(f.Params[1]), ssa.Value(f.Params[2])
+			xs := expandCalls(c, f, func(cl *ssa.Function) bool {
+				return inCanonicalizer(cl) && namedOf(recvType(cl)) == "profile" && cl.Name() != "Parse" && cl.Name() != "ParseRef" && cl.Name() != "Canonicalize"
+			}, 3)
+			n := 0
+			for i := range xs {
+				x := &xs[i]
+				com := x.Call.Common()
+				name := ""
+				var text ssa.Value
+				switch {
+				case com.IsInvoke() && com.Method.Name() == "Parse" && len(com.Args) == 1:
+					name, text = "Parser.Parse", com.Args[0]
+				case com.StaticCallee() != nil && com.StaticCallee().Name() == "Parse" && namedOf(recvType(com.StaticCallee())) == "profile" && len(com.Args) == 2:
+					name, text = "profile.Parse", com.Args[1]
+				default:
+					continue
+				}
+				if x.Root(text) != ref {
+					continue
+				}
+				n++
+				key := fmt.Sprintf("canonref/(*profile).ParseRef/%s#%d", name, n)
+				empty := false
+				for _, fa := range x.Facts {
+					bo, ok := fa.Cond.(*ssa.BinOp)
+					if !ok {
+						continue
+					}
+					rel, ok := relOf(bo.Op, fa.Val)
+					if !ok {
+						continue
+					}
+					for _, pr := range [][2]ssa.Value{{bo.X, bo.Y}, {bo.Y, bo.X}} {
+						if k, isK := constString(pr[1]); isK && k == "" && rel == token.EQL && x.Root(pr[0]) == base {
+							empty = true
+						}
+						if k, isK := constInt(pr[1]); isK && k == 0 && (rel == token.EQL || (rel == token.LEQ && pr[1] == bo.Y)) {
+							if a, isLen := lenArg(pr[0]); isLen && x.Root(a) == base {
+								empty = true
+							}
+						}
+					}
+				}
+				s.Check(empty, key, c.P.Pos(x.Call.Pos()), "the reference is parsed on its own only where the base string is empty", "the reference is parsed without the base although the base string is not known to be empty: ParseRef(base, ref) would ignore its base")
+			}
+			if n == 0 {
+				s.OK("canonref/(*profile).ParseRef", c.P.Pos(f.Pos()), "the reference is never parsed without the base")
+			}
+		},
+	})
+
+	register(&Rule{
 		Name:  "OPT-retry",
 		Doc:   "in profile.Parse and profile.ParseRef (helpers included) the default-scheme retry re-parses defaultScheme + \"://\" + input under exactly (err ≠ nil) ∧ (error type = missing scheme) ∧ (defaultScheme ≠ \"\")",
 		Props: []string{"C16"},
